@@ -434,12 +434,14 @@ def batch_ctc_listings(seed, count):
     rnd = random.Random(seed)
     names = ['F0', 'F1', 'F2']
     pool = R.logical_trees(names, 1)
+    from . import c18 as _c18
+    pool2 = [t for t in _c18.family_depth2_restricted(names) if isinstance(t, tuple)]
     arith = [('EQUALS', 'F1', 3), ('LOWER', ('ADD', 'F1', 'F2'), 5), ('GREATER', ('SUM', 'F1', 'F2'), 1),
              ('NOT_EQUALS', ('MUL', 'F1', 2), ('DIV', 'F2', 2))]
     res = {'instances': 0, 'nontrivial': 0, 'violations': [], 'native_runs': 0}
     shape = (((), ()),)
     for it in range(count):
-        trees = [rnd.choice(pool) for _ in range(rnd.randint(0, 4))]
+        trees = [rnd.choice(pool if it % 2 == 0 else pool2) for _ in range(rnd.randint(0, 4))]
         if it % 3 == 0:
             trees.append(rnd.choice(arith))
         ctcs = [R.ctc('c%d' % i, t) for i, t in enumerate(trees)]
@@ -486,6 +488,26 @@ def replay_ctc_listing(trees):
             out.append('%s listing != filter by %s on %r' % (kind, pred, trees))
     if [id(c) for c in m.get_constraints()] != [id(c) for c in ctcs]:
         out.append('get_constraints() is not the constraint list')
+    # what the requires / excludes listings must contain is a matter of meaning: the documented simple forms are listed,
+    # and whatever is listed is equivalent to 'l implies r' / 'not both l and r' for two of its features (truth table)
+    from . import c17 as _c17, c18 as _c18
+    try:
+        req = [id(c) for c in m.get_requires_constraints()]
+        exc = [id(c) for c in m.get_excludes_constraints()]
+    except Exception:
+        return out
+    for c, t in zip(ctcs, trees):
+        if not isinstance(t, tuple) or not all(o in _c18.LOGICAL for o in _c18.ops_of(t)):
+            continue
+        doc = _c18.simple_form(t)
+        if doc is not None and doc[0] == 'requires' and id(c) not in req:
+            out.append('the documented requires form %r is missing from get_requires_constraints()' % (t,))
+        if doc is not None and doc[0] == 'excludes' and id(c) not in exc:
+            out.append('the documented excludes form %r is missing from get_excludes_constraints()' % (t,))
+        if id(c) in req and not _c17._sem_simple(t, True):
+            out.append('%r is listed by get_requires_constraints() but is not equivalent to "l implies r" for any two of its features' % (t,))
+        if id(c) in exc and not _c17._sem_simple(t, False):
+            out.append('%r is listed by get_excludes_constraints() but is not equivalent to "not both l and r" for any two of its features' % (t,))
     return out
 
 
